@@ -11,7 +11,7 @@ pub struct C11;
 
 const FR: &[&str] = &[
     " ", " ", "\n", "\t", ";", ";", "a", "b1", "_x", "x", "e", "d", "1", "12", "2.5", "1e3", "1e", "1e+", "0fx", "0f", ".", ".5", "..", "'s'", "'it''s'", "\"d\"", "\"", "'", "''", "\"\"", "/*c*/", "/*", "*/", "*", "**", "* c;",
-    "&", "&&", "% ", "%", "(", ")", ",", "=", "=*", "/", "datalines;", "cards4;", "datalines", "lines", "CARDS ;", "lines4 ;", ";;;;", ";;", "$f.", "$", "$12.", "$é3.2", "$a1b2.3", "eq", "ne", "and", "or", "not", "in", "lt", "+", "-",
+    "&", "&&", "% ", "%", "(", ")", ",", "=", "=*", "/", "datalines;", "cards4;", "datalines", "lines", "CARDS ;", "lines4 ;", "datalines\u{a0};", "cards\u{2003} ;", "lines4\u{85};", "Cards\t\u{3000};", "datalines\n;", ";;;;", ";;", "$f.", "$", "$12.", "$é3.2", "$a1b2.3", "eq", "ne", "and", "or", "not", "in", "lt", "+", "-",
     "<", ">", "<=", ">=", "<>", "><", "|", "||", "^=", "^", "~", "¬", "¬=", "∘", "∘=", "#", "'41'x", "\"4a\"X", "'4'x", "'4,1'x", "'+1'x", "''x", "b", "dt", "n", "t", "é", "😀", "\u{a0}", "\u{2028}", ":", "data", "run", "proc", "_null_",
     "_all_", "corr", "corresponding", "exec", "1x", "{", "}", "[", "]", "?", "@", "!", "!!", "¦", "¦¦", "\r\n", "\\", "`", "\u{1}", "E5", "+5", "-3", "fx", "X", "18446744073709551615", "18446744073709551616", "0FFFFFFFFFFFFFFFFx",
     "0FFFFFFFFFFFFFFFFFx", "123456789012345678901", "1.5e", "1.e5", "1.x", "9a", "9ax", "é1", "a.b", "a-b", "x=1;", "input", "put", "format", "lt=", "ge", "le", "gt",
@@ -33,7 +33,37 @@ pub fn sanitize(s: &str) -> String {
 }
 
 fn gen_free(s: &mut Src) -> (&'static str, String) {
+    let (n, t) = gen_free_inner(s);
+    if s.coin(1, 6) {
+        return (n, text::mutate_unicode_ws(s, &t, 110));
+    }
+    (n, t)
+}
+
+/// datalines blocks with every kind of header gap, body and terminator, at various statement positions
+fn gen_datalines(s: &mut Src) -> String {
+    let mut out = String::new();
+    out.push_str(s.pick(&["", "", ";", "x;", "x ", "data a; input x; ", "/*c*/", "* c;", "run;\n", "'s';", "1;"]));
+    out.push_str(s.pick(&["datalines", "cards", "lines", "datalines4", "cards4", "lines4", "DATALINES", "Cards4", "LiNeS", "datalines5", "card"]));
+    let gaps = 0 + s.below(4);
+    for _ in 0..gaps {
+        out.push_str(s.pick(&[" ", " ", "\n", "\t", "\r\n", "\u{a0}", "\u{2003}", "\u{85}", "\u{b}", "\u{3000}", "/*c*/", "x"]));
+    }
+    out.push_str(s.pick(&[";", ";", ";", "", ";;"]));
+    let body = s.below(5);
+    for _ in 0..body {
+        out.push_str(s.pick(&["\n", "1 2 3", "a;b", ";", ";;", ";;;", "'x", "/* c", "é 😀", " ", "* y", "\r\n", "abc"]));
+    }
+    out.push_str(s.pick(&[";", ";;;;", "", "\n;", "\n;;;;", ";;;", ";ab", "\n;\n"]));
+    out.push_str(s.pick(&["", "", " x=1;", "* c;", "\nrun;", "datalines;\n;"]));
+    out
+}
+
+fn gen_free_inner(s: &mut Src) -> (&'static str, String) {
     let c = corpus();
+    if s.coin(1, 10) {
+        return ("datalines-shapes", sanitize(&gen_datalines(s)));
+    }
     match s.below(10) {
         0 | 1 => ("text-sanitized", sanitize(&text::g_text(s, 40))),
         2 => ("window-sanitized", sanitize(&program_window(s, c, 300))),
